@@ -123,6 +123,10 @@ static void run_case(Ctx& c, uint64_t idx) {
     if (idx % 3 == 0) run<ApiW>(c, B, R, gen);
     if (idx % 5000 == 3) c.sample(gen, esc(B) + " + " + esc(R));
 }
-static Monitor mon = {"resolve", "C06: reference resolution against the RFC 3986 5.2 text model", "C06", ncases, run_case, nullptr};
+static void fuzz_one(Ctx& c, const unsigned char* d, size_t n) {
+    if (n > 400) n = 400; Str B, R; fuzz_split2(d, n, &B, &R);
+    run<ApiA>(c, B, R, "fuzz"); if (n & 1) run<ApiW>(c, B, R, "fuzz");
+}
+static Monitor mon = {"resolve", "C06: reference resolution against the RFC 3986 5.2 text model", "C06", ncases, run_case, nullptr, fuzz_one};
 VF_REGISTER(mon);
 }
